@@ -118,6 +118,14 @@ let run_case (line : string) : string =
                    if rsp.rs_link = [] then continue := false else last := lc rsp.rs_link
                  done;
                  outs := Printf.sprintf "{\"pages\":[%s]}" (String.concat "," (List.rev !pages)) :: !outs
+             | List (Atom "group" :: xs) ->
+                 (* several requests answered as one step (used for requests whose body delivery is
+                    interleaved with other requests on the implementation) *)
+                 let rs = List.map (fun y ->
+                     match req_of locs y with
+                     | None -> "{\"skip\":true}"
+                     | Some q -> let (s', r) = step cfg env !st q in st := s'; json_resp r) xs in
+                 outs := Printf.sprintf "{\"group\":[%s]}" (String.concat "," rs) :: !outs
              | _ ->
              match req_of locs x with
              | None -> outs := "{\"skip\":true}" :: !outs
